@@ -112,6 +112,7 @@ package crypto
 //@   props C06 C17 C15 C10
 //@   requires curve != nil
 //@   ensures result1 == nil ==> (2 * len(result0) == len(in) && fresh(result0))
+//@   ensures result1 != nil ==> isnil(result0)
 //@   ensures [C17.unflatten-valid] (result1 == nil && (len(noCurveCheck) == 0 || !noCurveCheck[0])) ==> forall k in 0..len(result0) :: (validPoint(result0[k]) && result0[k].curve == curve && result0[k].coords[0] == in[2*k] && result0[k].coords[1] == in[2*k+1])
 //@   ensures result1 == nil ==> forall k in 0..len(result0) :: (result0[k] != nil && result0[k].coords[0] != nil && result0[k].coords[1] != nil && result0[k].curve == curve)
 //@   loop 0 invariant 0 <= j && i == 2 * j && i <= len(in) + 1 && 2 * len(unFlat) == len(in) && fresh(unFlat)
